@@ -62,7 +62,8 @@ class DigitalWaveformSignalCollection(
         elif isinstance(index, str):  # index is the line name
             line_names = self._owner._get_line_names()
             try:
-                column_index = line_names.index(index)
+                # NI_LineNames may list more names than the waveform has signals.
+                column_index = line_names.index(index, 0, len(self._signals))
             except ValueError:
                 raise IndexError(index)
             signal_index = self._owner._reverse_index(column_index)
